@@ -1468,6 +1468,19 @@ def cross_cutting(ctx, rep, prop):
                 bad += 1
                 rep.bad("X", "guarded_by", f"{f.short}: optional number `{p_}` is tested with `is None`, not for truth", f, u,
                         f"`{U(u)[:70]}` treats `{p_} = 0` as 'not given'")
+        # ... and locals that hold the result of a method of the same object annotated `-> Optional[int]` / `Optional[float]`
+        for nm_ in sorted({x.id for x in walk_shallow(f.node) if isinstance(x, ast.Name) and isinstance(x.ctx, ast.Store)}):
+            ds_ = local_defs(f, nm_)
+            if len(ds_) != 1 or isinstance(ds_[0], tuple) or not (isinstance(ds_[0], ast.Call) and isinstance(ds_[0].func, ast.Attribute)
+                                                                 and isinstance(ds_[0].func.value, ast.Name) and ds_[0].func.value.id == "self"):
+                continue
+            m_ = ctx.P.lookup_method(f.defining_cls, ds_[0].func.attr) if f.defining_cls is not None else None
+            ann = U(m_.node.returns).replace(" ", "") if m_ is not None and m_.node.returns is not None else ""
+            if ann in ("Optional[int]", "Optional[float]", "Optional[Union[int,float]]"):
+                for u in truthiness_uses(f, nm_):
+                    bad += 1
+                    rep.bad("X", "guarded_by", f"{f.short}: optional number `{nm_}` is tested with `is None`, not for truth", f, u,
+                            f"`{U(u)[:70]}` treats `{nm_} = 0` (a legal result of {ds_[0].func.attr}) as 'nothing'")
         for px_, key_, call_ in consumed_before_forwarding(f):
             bad += 1
             rep.bad("X", "agreement", f"{f.short}: `{key_}` still reaches {fn_name(call_)} after it was taken out of the keyword arguments", f, px_,
